@@ -16,7 +16,7 @@ theorem default_eq (c : Ctx) (p : Provider) (hf : Fresh p c) (e : Event)
     unfold commonFormula
     cases userOf e.sender with
     | none => rfl
-    | some u => simp [lib, Departures.asImplemented]
+    | some u => rfl
   · rw [h, membershipOf_na h]
     cases userOf e.sender <;> simp
 
@@ -64,7 +64,7 @@ theorem redaction_eq (c : Ctx) (p : Provider) (hf : Fresh p c) (e : Event)
   | true =>
     have hce := common_createPresent hrc
     have hd5 : lib.d5_redactionByCreateContent = true := rfl
-    have hu4 : lib.u4_redactsNeedsDomain = true := rfl
+    have hu4 : lib.d17_redactsNeedsDomain = true := rfl
     simp only [if_true, Bool.true_and, hd5, hu4, Bool.not_true, Bool.false_and, resolveUser, userOf]
     cases hp : parseUserID? e.sender with
     | none => simp [hp] at hs
@@ -274,7 +274,10 @@ theorem checkCreateV1_eq (e : Event) (u : UserID) (hu : userOf e.sender = some u
 theorem checkCreateV2_eq (e : Event) (u : UserID) (hu : userOf e.sender = some u) (row : VGen.VersionRow)
     (hrow : e.row = some row) (hc : row.checkCreateEvent = "checkCreateEventV2")
     (hdom : (domainFromID (e.roomID.drop 1)).isSome = true) :
-    accepts (checkCreateEvent e u) = some (roomDomainIsSenderDomain e) := by
+    accepts (checkCreateEvent e u) = some (roomDomainIsSenderDomain e &&
+      (match contentFields e.content with
+       | some kvs => roomVersionRecognised kvs
+       | none => false)) := by
   unfold checkCreateEvent
   have e1 : ("checkCreateEventV2" == "checkCreateEventV1") = false := by decide
   simp only [hrow, hc, beq_self_eq_true, if_true, e1, Bool.false_eq_true, if_false]
@@ -283,8 +286,23 @@ theorem checkCreateV2_eq (e : Event) (u : UserID) (hu : userOf e.sender = some u
   cases hdm : domainFromID (e.roomID.drop 1) with
   | none => rw [hdm] at hdom; cases hdom
   | some dom =>
-    simp only
-    by_cases hne : u.domain = dom <;> simp [hne]
+  simp only
+  by_cases hne : u.domain = dom
+  case neg => simp [hne]
+  case pos =>
+    simp only [hne, bne_self_eq_false, Bool.false_eq_true, if_false, ok_bind, beq_self_eq_true, Bool.true_and]
+    unfold contentFields
+    cases hcnt : e.content with
+    | none => simp
+    | some v =>
+      cases v with
+      | obj kvs =>
+        simp only [roomVersionRecognised_eq]
+        cases (decStringPtr (lookupField kvs b!"room_version")).err <;>
+        cases (decStringPtr (lookupField kvs b!"room_version")).val <;> simp
+        all_goals (split <;> simp_all)
+      | null => simp [lookupField, roomVersionRecognised]
+      | _ => simp
 
 theorem userOf_nil : userOf [] = none := by decide
 
@@ -407,7 +425,6 @@ theorem create_eq (c : Ctx) (e : Event) (row : VGen.VersionRow) (sv : SpecVersio
             | none => true) = true) :
     accepts (c.createEventAllowed e) = some (ruleCreate lib sv e) := by
   unfold Ctx.createEventAllowed ruleCreate Event.stateKeyEquals
-  have hu5 : lib.u5_v11NoRoomVersionCheck = true := rfl
   by_cases hsk : (e.stateKey == some []) = true
   case neg => simp [hsk]
   case pos =>
@@ -447,7 +464,7 @@ theorem create_eq (c : Ctx) (e : Event) (row : VGen.VersionRow) (sv : SpecVersio
           · omega
           · exact h
         rw [checkCreateV2_eq e u hu row hrow hc hdm, h2]
-        simp [hu5]
+        rfl
       · have hc : row.checkCreateEvent = "checkCreateEventV3" := by rw [hri.create, h3]; rfl
         rw [checkCreateV3_eq e u row hrow hc hd2, h3]
         rfl
